@@ -89,7 +89,7 @@ class ItWrite(Case):
             if T in IT and op == '/=': cs += nodiv(V, T, extra)
             return cs
         Case.__init__(s, f'itw_{SHORT[T]}_{"x".join(map(str, shape))}_{n}_{OPN[op]}_{kind[:3]}', [a, it] + extra, k, r, desc=f'A(it) {op} {fr}: len {n} on {shape} {T}', pre=pre)
-        s.dom = 'uf' if T in FT else 'bits'; s.timeout = 30
+        s.dom = 'uf' if T in FT else 'bits'; s.uf_int = T in IT; s.timeout = 30
         if T in FT and op == '/=' and kind == 'scalar': s.alt_ref_src = f'{T} rc_ = ({T})1/x[0]; for(int q=0;q<{n};++q) a[it[q]] *= rc_;'
 
 
@@ -109,8 +109,21 @@ class MaskWrite(Case):
             if T in IT and op == '/=': cs += nodiv(V, T, extra)
             return cs
         Case.__init__(s, f'msk_{SHORT[T]}_{"x".join(map(str, shape))}_{OPN[op]}_{kind[:3]}', [a, m] + extra, k, r, desc=f'A(mask) {op} {fr} on {shape} {T}', pre=pre)
-        s.dom = 'uf' if T in FT else 'bits'; s.max_paths = 3000; s.timeout = 30
+        s.dom = 'uf' if T in FT else 'bits'; s.uf_int = T in IT; s.max_paths = 3000; s.timeout = 30
         if T in FT and op == '/=' and kind == 'scalar': s.alt_ref_src = f'{T} rc_ = ({T})1/x[0]; for(int q=0;q<{sz};++q) {{ {T} t_ = a[q]*rc_; a[q] = m[q] ? t_ : a[q]; }}'
+
+
+class MaskMask(Case):
+    """A(m1) op= B(m2): positions where m1 is set receive B at the SAME position (the source mask only says which elements B exposes)"""
+    def __init__(s, T, n, op):
+        a = Buf('a', T, n, 'inout'); b = Buf('b', T, n); m1 = Buf('m', 'bool', n); m2 = Buf('w', 'bool', n)
+        k = f'Tensor<{T},{n}> A(a), B(b); Tensor<bool,{n}> M(m), W(w); A(M) {op} B(W); ' + copy_out('A', 'a', n)
+        upd = apply_op(T, op, 't_', 'b[q]')
+        r = f'for(int q=0;q<{n};++q) {{ {T} t_ = a[q]; {upd} a[q] = m[q] ? t_ : a[q]; }}'
+        def pre(V): return [z3.ULE(V.el('m', i), z3.BitVecVal(1, 8)) for i in range(n)] + [V.el('w', i) == 1 for i in range(n)] if False else \
+            [z3.ULE(V.el('m', i), z3.BitVecVal(1, 8)) for i in range(n)] + [z3.ULE(V.el('w', i), z3.BitVecVal(1, 8)) for i in range(n)] + [z3.Implies(V.el('m', i) == 1, V.el('w', i) == 1) for i in range(n)]
+        Case.__init__(s, f'mskmsk_{SHORT[T]}_{n}_{OPN[op]}', [a, b, m1, m2], k, r, desc=f'A(m1) {op} B(m2) n={n} {T} (m2 covers m1)', pre=pre)
+        s.dom = 'uf' if T in FT else 'bits'; s.uf_int = T in IT; s.max_paths = 3000; s.timeout = 30
 
 
 OPS = ['=', '+=', '-=', '*=', '/=']
@@ -134,6 +147,7 @@ def cases(tier, cfg, seed):
             out.append(ItWrite(T, (4, 5), 3, op, 'tensor'))
             for kind in (('tensor', 'scalar') if tier == 'quick' else ('tensor', 'scalar', 'expr')):
                 out.append(MaskWrite(T, (7,) if tier == 'quick' else (9,), op, kind))
+        out.append(MaskMask(T, 5, '=')); out.append(MaskMask(T, 5, '+='))
         out.append(MaskWrite(T, (3, 3), '=', 'tensor')); out.append(MaskWrite(T, (2, 2, 2), '+=', 'scalar'))
         if tier != 'quick': out.append(ItWrite(T, (17,), 9, '+=', 'tensor')); out.append(MaskWrite(T, (12,), '=', 'tensor'))
     return out
